@@ -20,8 +20,10 @@ vars == <<map, prov, hist>>
 Funcs == [f |-> <<"f">>, g |-> <<"g">>]                         \* plain functions and their __name__
 \* public callables of the view classes, in the order a view exposes them (alphabetical):
 \*   V; W(V) - a view derived from a view, adding `extra`; M(ViewMixin, Health) - handlers inherited from a plain base class
-ViewMembers == [V |-> <<"V_get", "V_put">>, W |-> <<"W_extra", "W_get", "W_put">>, M |-> <<"M_own", "M_ping">>]
-ViewPublic == [V_get |-> <<"get">>, V_put |-> <<"put">>, W_extra |-> <<"extra">>, W_get |-> <<"get">>, W_put |-> <<"put">>,
+\*   `memo` is a public callable that is not a plain function (an lru_cache wrapper object): exposed like the others
+ViewMembers == [V |-> <<"V_get", "V_memo", "V_put">>, W |-> <<"W_extra", "W_get", "W_memo", "W_put">>, M |-> <<"M_own", "M_ping">>]
+ViewPublic == [V_get |-> <<"get">>, V_memo |-> <<"memo">>, V_put |-> <<"put">>, W_extra |-> <<"extra">>, W_get |-> <<"get">>,
+               W_memo |-> <<"memo">>, W_put |-> <<"put">>,
                M_own |-> <<"own">>, M_ping |-> <<"ping">>]
 \* every class also has: _hid (private callable), __magic__ (dunder callable), const (public, not callable): never exposed
 
